@@ -48,6 +48,11 @@ namespace storage
 /// Values can be up to 100 * 1024 * 1024 bytes in size.
 static constexpr size_t MAX_KEY_LENGTH = 65535;
 static constexpr size_t MAX_VALUE_LENGTH = 100 * 1024 * 1024;
+/// Largest log record (payload + CRC) the replay accepts: op(1) + keyLen(4) + key + expiry(8) +
+/// valLen(4) + value + crc(4). It must admit every record writeLogEntry can produce; a cap of
+/// MAX_VALUE_LENGTH alone rejects (and, with the torn-tail truncation, deletes) the record of a
+/// value within a few bytes of MAX_VALUE_LENGTH together with every record after it.
+static constexpr size_t MAX_LOG_RECORD_LENGTH = 1 + 4 + 65536 + 8 + 4 + MAX_VALUE_LENGTH + 4;
 
 /// Configuration options for KVStore
 struct KVStoreConfig
@@ -1399,7 +1404,7 @@ private:
       const auto recordStart = log.tellg(); // boundary of the record about to be read
       uint32_t totalLen = 0;
       if (!log.read(reinterpret_cast<char *>(&totalLen), sizeof(totalLen)) || totalLen < 10 ||
-          totalLen > 100 * 1024 * 1024)
+          totalLen > MAX_LOG_RECORD_LENGTH)
       {
         // Torn or corrupt tail: cut the log at the last record boundary. The log is reopened
         // in append mode; records written behind a torn tail would be swallowed by its length
